@@ -294,6 +294,14 @@ def diff_case(a, b):
             if ra[-1].split()[2].split("/")[-1].split("#")[0] != rb[-1].split()[2].split("/")[-1].split("#")[0]:
                 return dict(index=i, action=aa, what="panic-site", model=ra, impl=rb)
             return None
+        if ra != rb and snapshot_corrupt(asn) and snapshot_corrupt(bsn):
+            # the action that makes a freed record reachable (a recorded defect) also retires the key's manager: the
+            # LCount of a reply sent after that is read from the retired manager object (stale field in Go, fresh
+            # manager in the model): undefined, not compared
+            def nolc(evs):
+                return [" ".join(t[:5] + ["*"] + t[6:]) if t[:2] == ["ev", "reply"] else " ".join(t) for t in (e.split() for e in evs)]
+            if nolc(ra) == nolc(rb):
+                ra = rb
         if ra != rb:
             return dict(index=i, action=aa, what="replies", model=ra, impl=rb)
         if fa != fb:
